@@ -326,7 +326,15 @@ func judgeWire(out *reg.Out, w *World, or *oracle, wire []wireRec, nerrs []strin
 	for _, e := range nerrs {
 		out.Fail("wire-codec", "%s", e)
 	}
-	cls := func(c string) string { return c }
+	// known-finding input class (decided from the case alone): the responder lacks a block of the
+	// prefix the requestor loaded locally and the first `skip` links of its own traversal reach
+	// beyond that prefix — the two peers then disagree about which blocks "the first N" are
+	cls := func(c string) string {
+		if or.lacksPrefix() && or.windowOverrun() {
+			return "skip-prefix-mismatch-resend"
+		}
+		return c
+	}
 	if len(or.sentNew) != 1 {
 		return
 	}
